@@ -7,7 +7,7 @@ claim(
 claim(
     "C15",
     "differential monitor over enumerated + random abstract selectors rendered in every documented spelling; reference desugarer; identity (interning) oracle",
-    "Every abstract selector from a bounded grammar (depth<=2 quick / <=3 thorough, width<=3, all operand kinds) is rendered in 11 documented spellings x 3 whitespace variants; all must parse to one interned object whose structure equals an independent reference desugaring, whose focus is the marked element, and which is identical to an object built through the public constructors. Sampled + systematic exploration, not a proof over the unbounded grammar.",
+    "Every abstract selector from a bounded grammar (depth<=2 quick / <=3 thorough, width<=3, all operand kinds) is rendered in 14 spellings (documented notations, grouping parentheses around arguments and around leading argument sequences) x 3 whitespace variants; all must parse to one interned object whose structure equals an independent reference desugaring, whose focus is the marked element, and which is identical to an object built through the public constructors. Sampled + systematic exploration, not a proof over the unbounded grammar.",
     "Trusts my reading of the documented notation (vlib/selgen.py); capture reorderings are not claimed equivalent; select()-level identity only for literal '=' values.",
 )
 claim(
@@ -38,7 +38,7 @@ claim(
     "C09",
     "history monitor: driver histories over instrumented generators with the handler collection compared after every step against a no-leak model, and per-call event expectations for the driver's own calls",
     "Seeded random histories (<=10/16 ops: overlays entered/left, generators created, advanced, sent to, closed, dropped+gc, zipped, exhausted, in LIFO and non-LIFO completion orders, driver at top level or inside an instrumented outer()) are run against the real code; after every step HandlerCollection.current must equal the model's handler list by identity, and each driver call of g must fire exactly the selectors that do not require the generator as ancestor. Held-on-observed.",
-    "Events of the generators' own inner calls are not asserted; overlays are entered/left LIFO by the driver; generators use plain `yield` (no user-level `yield from`).",
+    "Events of the generators' own inner calls are not asserted; overlays are entered/left LIFO by the driver; the generator family uses plain `yield`, `yield from` a sub-generator and `yield from` a plain iterator.",
 )
 claim(
     "C17",
